@@ -339,7 +339,7 @@ impl SubCheck for YearSub {
 // ------------------------------------------------------------------------------------------
 
 pub fn run(ctx: &mut Ctx) {
-    ctx.rule = "complete walk over every day number in -100000003..=100000002 (odometer oracle); depth 0 = constructor limits + all date getters + raw kernel both directions for EVERY day; depth 1 (+ add/subtract/until/compare with the next day) and depth 2 (+ UTC midnight instant via zoned value and via string, date-time limits) on every day that is at/adjacent to a month or year boundary or a range end plus a stride (quick) or on every day (thorough). non-trivial = day at or adjacent to a month/year boundary (d=1, d>=28, first/last 4 days of year) or within 2 days of a range end; each day is visited once so non-trivial days are distinct by construction. pairs: generated (a,b) with ns parts; non-trivial = spans a leap day or > 1000 years. years: all 547582 years.".into();
+    ctx.rule = "[also: near pairs - same / adjacent day, one time field moved by a few units with all lower fields independent, so that the order is decided below the millisecond; constructor regulation oracle of C17 over raw year / month / day incl. 0, length+1, 255] complete walk over every day number in -100000003..=100000002 (odometer oracle); depth 0 = constructor limits + all date getters + raw kernel both directions for EVERY day; depth 1 (+ add/subtract/until/compare with the next day) and depth 2 (+ UTC midnight instant via zoned value and via string, date-time limits) on every day that is at/adjacent to a month or year boundary or a range end plus a stride (quick) or on every day (thorough). non-trivial = day at or adjacent to a month/year boundary (d=1, d>=28, first/last 4 days of year) or within 2 days of a range end; each day is visited once so non-trivial days are distinct by construction. pairs: generated (a,b) with ns parts; non-trivial = spans a leap day or > 1000 years. years: all 547582 years.".into();
     ctx.assumptions = vec![
         "oracle: day-by-day odometer anchored at 1970-01-01 = day 0 (Thursday); closed form cross-checked at selftest".into(),
     ];
